@@ -33,6 +33,7 @@ type walkCfg struct {
 	weights []int // action alphabet with repetitions = weights (nil: default)
 	viaGRPC bool  // the node talks to the model through aggkit's real gRPC client over a unix socket
 	beyond  bool  // some claims are made against L1 info leaves above the finalized one (outside C09's precondition)
+	rotate  bool  // the operator may stop the node, configure another aggsender key and start it again (C10)
 }
 
 type walkRes struct {
@@ -46,6 +47,38 @@ type walkRes struct {
 	cleanup    func()
 	storageDir string
 	grpc       *grpcAgglayer
+	rotations  int
+}
+
+// rotateKey: the operator stops the node, configures another aggsender key and starts a new instance on the same database
+// (p != nil: the aggchain-prover flow is installed again). From then on certificates must carry the new signer's signature.
+func (r *walkRes) rotateKey(ch choose.Chooser, cfg walkCfg, p *modelProver) string {
+	keys := append([]string{verifPrivKey}, verifRotatedKeys...)
+	nc := cfg.node
+	nc.Key = choose.Pick(ch, keys, "newKey")
+	var client agglayer.AgglayerClientInterface = r.m
+	if r.grpc != nil {
+		client = r.grpc
+	}
+	node, err := newASNode(r.w, client, r.storageDir, nc)
+	if err != nil {
+		return "rotate-failed(new)"
+	}
+	if p != nil {
+		if err := installFEPFlow(node, r.w, p, nc); err != nil {
+			return "rotate-failed(flow)"
+		}
+	}
+	if err := node.startup(r.m, 4); err != nil {
+		// start-up waits (or refuses) in this Agglayer state: the operator keeps the old instance; restarts as such are C13's
+		return "rotate-refused"
+	}
+	r.m.mu.Lock()
+	r.m.signer = addrOfKey(nc.key())
+	r.m.mu.Unlock()
+	r.node = node
+	r.rotations++
+	return "ROTATE(" + nc.key()[:4] + ")"
 }
 
 func (r *walkRes) key() string { return strings.Join(r.trace, " ") }
@@ -211,6 +244,10 @@ func runWalk(ch choose.Chooser, cfg walkCfg) (*walkRes, error) {
 		return nil, fmt.Errorf("startup on an empty state failed: %v", err)
 	}
 	for i := 0; i < cfg.steps; i++ {
+		if cfg.rotate && ch.Int(0, 7, "rotateKeyNow") == 0 {
+			r.trace = append(r.trace, r.rotateKey(ch, cfg, nil))
+			continue
+		}
 		var act int
 		if cfg.reduced {
 			act = []int{8, 9, 1, 2, 4, 10, 11}[ch.Int(0, 6, "action")]
